@@ -1,4 +1,5 @@
 """Shared machinery for the writer round trips (C03 tokenized, C04 partial annotation)."""
+import json
 import vlib
 
 A1 = {97, 32, 47, 92, 12354, 128512}            # a, space, /, \, あ, 😀
@@ -113,3 +114,30 @@ def idempotence(ctx, binp, which, maxlen, alphabet):
                  spec_reader_notes=len(noted))
     if events:
         ctx.sample({"string": events[len(events) // 2]["s"], "write_parse": events[len(events) // 2]["w1"]})
+
+
+def random_round_trips(ctx, binp, which, n):
+    """Seeded random sentences over a wide character pool (white-space look-alikes, delimiters, 1-4 byte characters)."""
+    events = vlib.record_parallel(binp, "sentences", n, ctx.seed, f"{ctx.prop}-rand")
+    want = "roundtok" if which == "tok" else "roundpart"
+    events = [e for e in events if e.get("ev") in (want, "panic", "abort")]
+    for i, e in enumerate(events):
+        e["id"] = i
+        if e.get("ev") == "panic" and which not in e.get("what", which):
+            e["ev"] = "skip"
+    events = [e for e in events if e["ev"] != "skip"]
+    for i, e in enumerate(events):
+        e["id"] = i
+    ctx.evaluations += len(events)
+    rej, noted = vlib.validate_trace(ctx, f"{ctx.prop}-rand", "Trace_Writers", events)
+    byid = {e["id"]: e for e in events}
+    for e in events:
+        if e.get("sent", {}).get("ntags"):
+            ctx.nontriv(("rnd", e["id"]))
+    for rid in rej:
+        e = byid[rid]
+        s = e.get("sent")
+        ctx.violation(f"{ctx.prop}:{which}:random-roundtrip:seed{e.get('driver_seed')}:{json.dumps(s)[:300]}",
+                      f"random sentence does not round-trip: written={e.get('wtok', e.get('wpart'))} reparsed={e.get('rtok', e.get('rpart'))}",
+                      {"kind": "roundtrip", "which": which, "sent": s}, cls=f"{ctx.prop}:random-roundtrip")
+    ctx.add_part(random_round_trip=which, events=len(events), rejected=len(rej), seed=ctx.seed)
